@@ -58,8 +58,9 @@ type vc02Object struct {
 	Gen       uint32     `json:"gen"`
 }
 type vc02Op struct {
-	Op  string `json:"op"` // track | track_ine | validate | expire | sweep | advance
-	Obj int    `json:"obj"`
+	Op   string `json:"op"` // track | track_ine | validate | expire | sweep | advance | age | use
+	Obj  int    `json:"obj"`
+	Secs int    `json:"secs"` // age: this much time passes for every timeout record (relative shift)
 }
 type vc02Flight struct {
 	Kind     string `json:"kind"` // genuine | crafted | raw
@@ -415,6 +416,15 @@ func (w *vc02World) runOp(op vc02Op) string {
 	case "sweep":
 		w.rm.RemoveOldRegistrations()
 		return ""
+	case "age":
+		// op.Secs seconds pass: every record's clock is shifted by that much RELATIVE to where it stands (never set
+		// to an absolute value: whatever an earlier operation did to a record's clock stays visible); no sweep
+		rd.m.Lock()
+		for _, to := range rd.decoysTimeouts {
+			to.registrationTime = to.registrationTime.Add(-time.Duration(op.Secs) * time.Second)
+		}
+		rd.m.Unlock()
+		return ""
 	case "advance":
 		// seven hours pass for everything tracked so far (beyond the unused and the active lifetime),
 		// then the real sweep decides from its own records what goes
@@ -441,6 +451,8 @@ func (w *vc02World) runOp(op vc02Op) string {
 		}
 	case "validate":
 		w.rm.AddRegistration(reg)
+	case "use":
+		w.rm.MarkActive(reg)
 	case "expire":
 		_, tr := w.transport(w.sc.Objects[op.Obj].Transport)
 		id := tr.GetIdentifier(reg)
